@@ -114,3 +114,104 @@ def replay_best(n, order, dom):
     inp = {'tokens': toks, 'candidates_in_order': order,
            'more_specific_pairs': [(i, j) for i in range(nc) for j in range(nc) if dom[i][j]]}
     return run_real_driver('best', [], inp)
+
+
+# ----------------------------------------------------------------------------
+# end-to-end replay of a signature shape against the real library
+
+def _shape_params(shape):
+    """C++ method parameter list and call helpers for a shape over {V, P, N}."""
+    mparams, dparams_t = [], []
+    for i, k in enumerate(shape):
+        if k == 'V':
+            mparams.append('virtual_<A&>')
+        elif k == 'P':
+            mparams.append('virtual_ptr<A>')
+        else:
+            mparams.append(['int', 'double', 'char'][i % 3])
+    return mparams
+
+
+def shape_dispatch_program(shape):
+    """Real registry: A, B : A; one definition per combination of {A, B} at the virtual positions returning the
+    combination's number; every combination is called and compared."""
+    vpos = [i for i, k in enumerate(shape) if k in 'VP']
+    v = len(vpos)
+    mp = _shape_params(shape)
+    L = ['#include <yorel/yomm2/keywords.hpp>', '#include <iostream>', 'using namespace yorel::yomm2;',
+         'struct A { virtual ~A() {} }; struct B : A {};', 'register_classes(A, B);',
+         'declare_method(int, m, (%s));' % ', '.join(mp)]
+    for combo in range(2 ** v):
+        ps = []
+        for i, k in enumerate(shape):
+            if k in 'VP':
+                cls = 'B' if (combo >> vpos.index(i)) & 1 else 'A'
+                ps.append('%s&' % cls if k == 'V' else 'virtual_ptr<%s>' % cls)
+            else:
+                ps.append(mp[i])
+        L.append('define_method(int, m, (%s)) { return %d; }' % (', '.join(ps), combo))
+    L.append('int main() { update(); A a; B b; int bad = 0;')
+    for combo in range(2 ** v):
+        args = []
+        for i, k in enumerate(shape):
+            if k in 'VP':
+                obj = 'b' if (combo >> vpos.index(i)) & 1 else 'a'
+                args.append(obj if k == 'V' else 'virtual_ptr<A>(%s)' % obj)
+            else:
+                args.append('0')
+        L.append('  { int r = m(%s); if (r != %d) { std::cout << "m(%s) runs definition " << r << ", the most specific applicable one is %d\\n"; ++bad; } }'
+                 % (', '.join(args), combo, ', '.join(args).replace('"', ''), combo))
+    L.append('  if (bad) std::cout << "REPRODUCED on real code\\n"; else std::cout << "real library dispatches this shape correctly\\n"; return 0; }')
+    return '\n'.join(L) + '\n'
+
+
+def shape_handler_program(shape, ambiguous):
+    vpos = [i for i, k in enumerate(shape) if k in 'VP']
+    mp = _shape_params(shape)
+    args = []
+    for i, k in enumerate(shape):
+        obj = 'b' if (len(args) % 2) else 'a'
+        if k == 'V':
+            args.append(obj)
+        elif k == 'P':
+            args.append('virtual_ptr<A>(%s)' % obj)
+        else:
+            args.append('0')
+    want = []
+    n = 0
+    for i, k in enumerate(shape):
+        obj = 'B' if (n % 2) else 'A'
+        if k in 'VP':
+            want.append('(type_id)&typeid(%s)' % obj)
+        n += 1
+    L = ['#include <yorel/yomm2/keywords.hpp>', '#include <iostream>', 'using namespace yorel::yomm2;',
+         'struct A { virtual ~A() {} }; struct B : A {};', 'register_classes(A, B);',
+         'struct key; using meth = method<key, int(%s)>;' % ', '.join(mp),
+         'int main() { update(); A a; B b; int bad = 0;',
+         '  default_policy::error = [&bad](const error_type& e) {',
+         '    auto r = std::get_if<resolution_error>(&e); if (!r) return;',
+         '    type_id want[] = { %s };' % ', '.join(want),
+         '    if (r->status != resolution_error::%s) { std::cout << "status " << r->status << "\\n"; ++bad; }' % ('ambiguous' if ambiguous else 'no_definition'),
+         '    if (r->arity != %d) { std::cout << "arity " << r->arity << ", the method has %d virtual parameters\\n"; ++bad; }' % (len(vpos), len(vpos)),
+         '    for (std::size_t i = 0; i < %d && i < resolution_error::max_types; ++i) if (r->types[i] != want[i]) { std::cout << "types[" << i << "] is not the dynamic type of virtual argument " << i << "\\n"; ++bad; }' % len(vpos),
+         '    throw 0; };',
+         '  try { meth::%s(%s); } catch (int) {}' % ('ambiguous_handler' if ambiguous else 'not_implemented_handler', ', '.join(args)),
+         '  if (bad) std::cout << "REPRODUCED on real code\\n"; else std::cout << "real handler reports this shape correctly\\n"; return 0; }']
+    return '\n'.join(L) + '\n'
+
+
+def run_generated_program(name, text, note):
+    os.makedirs(BUILD, exist_ok=True)
+    src = os.path.join(BUILD, name + '.cpp')
+    with open(src, 'w') as f:
+        f.write(text)
+    exe, info = build_driver(name, sources=[src])
+    if exe is None:
+        return {'reproduced': None, 'detail': 'generated replay program does not compile against /repo: ' + info, 'input': note}
+    try:
+        p = subprocess.run([exe], stdout=subprocess.PIPE, stderr=subprocess.STDOUT, timeout=120)
+        out = p.stdout.decode(errors='replace')
+    except subprocess.TimeoutExpired:
+        return {'reproduced': None, 'detail': 'replay program timeout', 'input': note}
+    return {'reproduced': 'REPRODUCED' in out or p.returncode not in (0,), 'detail': out.strip()[-800:] + (' [exit %d]' % p.returncode),
+            'input': note, 'cmd': '%s   # source %s, built by: %s' % (exe, src, info)}
